@@ -31,6 +31,18 @@ def composite_invariant(u, s, cs):
     want = set(u.models(cs))
     if have != want:
         return "the children together have %d models, the added constraints %d" % (len(have), len(want))
+    # a cached merged solver (CompositedCacheMixin) must still be the combination of the children it stands for
+    for key, ms in list(getattr(s, "_merged_solvers", {}).items()):
+        try:
+            cur = s._solvers_for_variables(set(ms.variables) | set(key))
+        except Exception:  # noqa
+            continue
+        if not cur or any(k not in kids for k in cur):
+            continue
+        a_ = set(u.models(list(ms.constraints)))
+        b_ = set(u.models([c for k in cur for c in k.constraints]))
+        if a_ != b_:
+            return "the cached merged solver for %s has %d models, the children it combines have %d" % (sorted(key), len(a_), len(b_))
     # every variable of an added constraint is registered, so that queries find the child holding it
     names = set().union(*[c.variables for c in cs]) if cs else set()
     missing = sorted(n for n in names if n not in s._solvers)
